@@ -65,11 +65,11 @@ NEWPIN_VALUES.update({"short-nl": "Ab1\n", "only-nl": "\n"})
 GETPASS_WS = [(k, ws_variant("Zz11gpZz", k)) for k in WS_KINDS]
 # "yes" without newline = the last line of an input that ends there; "\r\n" = a DOS line ending
 # "Ye\u017f" (long s): an unrecognised answer that Unicode case FOLDING / NFKC would turn into "yes";
-# it is the quick tier's representative of the unrecognised answers (thorough: also "maybe", a
-# very long line and a CRLF-terminated yes)
+# it is the quick tier's representative of the unrecognised answers (thorough: also a very long line
+# and a CRLF-terminated yes)
 STDIN_MENU = ["yes\n", "YES\n", "no\n", "n\n", "Ye\u017f\n", "\n", "y\n", "yes"]
 LONG_LINE = "y" * 70000 + "\n"
-STDIN_EXTRA = ["yes\r\n", LONG_LINE, "maybe\n"]
+STDIN_EXTRA = ["yes\r\n", LONG_LINE]
 MODES = ["bootloader", "signer", "ui-heartbeat", "0xff", "undefined", "status-error"]
 NAMES = {"btc": "m/44'/0'/0'/0/0", "rsk": "m/44'/137'/0'/0/0", "mst": "m/44'/137'/1'/0/0",
          "tbtc": "m/44'/1'/0'/0/0", "trsk": "m/44'/1'/1'/0/0", "tmst": "m/44'/1'/2'/0/0"}
